@@ -43,9 +43,17 @@ def load_registry():
             modname = "verif_" + os.path.splitext(os.path.basename(m))[0]
             pkg, mp = module_path(rel, modname)
             text = open(VERIF + "/contracts/kani/" + m).read()
-            for mt in re.finditer(r"(?m)^// @harness (.*)$", text):
+            marks = list(re.finditer(r"(?m)^// @harness (.*)$", text))
+            for mi, mt in enumerate(marks):
                 kv = dict(x.split("=", 1) for x in mt.group(1).split())
                 hid = kv["id"]
+                # a harness is selected for every property one of its assertions is tagged with: the tags of the text
+                # between this registry line and the next one are added to the declared props (a tag on an assertion of a
+                # harness that is never run for that property would be dead)
+                block = text[mt.end():marks[mi + 1].start() if mi + 1 < len(marks) else len(text)]
+                extra = sorted(set(re.findall(r"\[(C\d{2})\]", block)) - set(kv["props"].split(",")))
+                if extra and kv.get("kind", "full") != "neg":
+                    kv["props"] = kv["props"] + "," + ",".join(extra)
                 reg.append({
                     "id": hid,
                     "full": mp + "::" + hid,
